@@ -135,7 +135,8 @@ class TextualDataType(BaseDataType):
                 (encoding_chars['REPETITION'], '{esc}R{esc}'.format(esc=escape_char)),)
 
     def _get_escape_char_regex(self, escape_char):
-        return r'(?<!%s[HNFSTRE])%s(?![HNFSTRE]%s)' % tuple(3 * [re.escape(escape_char)])
+        # matches the escape sequences that can already be in the value
+        return r'(%s[HNFSTRE]%s)' % tuple(2 * [re.escape(escape_char)])
 
     def _escape_value(self, value, encoding_chars=None):
         escape_char = encoding_chars['ESCAPE']
@@ -168,18 +169,17 @@ class TextualDataType(BaseDataType):
                 offset += 2
             value = ''.join(words)
 
-        # Escapes encoding_chars
-        for char, esc_seq in translations:
-            value = value.replace(char, esc_seq)
-        # Escapes the escape_char. If it is found in other escape sequences it is not escaped.
-        # For example if the escape char is / and we find /H/ the escape chars are not re-escaped,
-        # otherwise it would become /E/H/E/ which is not the result wanted.
-        # Thus the regex search for escape chars not followed and not preceeded by one of the litteral
-        # composing an escape sequence. We use lambda because otherwise the backslash sequence in the string
-        # is processed (look for re.sub in python doc) and we don't want this
-        value = re.sub(self._get_escape_char_regex(escape_char),
-                       lambda x: '{esc}E{esc}'.format(esc=escape_char), value)
-
+        # The escape sequences already in the value (e.g. /H/ if the escape char is /) are left as they are,
+        # otherwise they would become /E/H/E/ which is not the result wanted. The value is read from left to
+        # right: the text between two escape sequences is escaped, the escape char first and then the
+        # encoding chars, whose escape sequences must not be escaped again.
+        parts = re.split(self._get_escape_char_regex(escape_char), value)
+        for i in range(0, len(parts), 2):
+            text = parts[i].replace(escape_char, '{esc}E{esc}'.format(esc=escape_char))
+            for char, esc_seq in translations:
+                text = text.replace(char, esc_seq)
+            parts[i] = text
+        value = ''.join(parts)
         return value
 
 
